@@ -856,6 +856,11 @@ def main():
     except ImportError:
         pass
     try:
+        import rs2lean_arith
+        gens += rs2lean_arith.generators(args.repo)
+    except ImportError:
+        pass
+    try:
         import rs2lean_dispatch
         gens += rs2lean_dispatch.generators(args.repo)
     except ImportError:
